@@ -76,6 +76,7 @@ prop("C06", "break / continue / lazybreak steer loops as documented", [
     ("pending_depth_ends_enclosing_range_loop", "iterate_pending", "same for an enclosing range loop"),
     ("broken_range_loop_runs_nothing", "vloop_broken_trace", "after a break no further element of a vector range loop runs any rule"),
     ("pending_depth_survives_nested_loop", "loop_keeps_pending_depth", "a nested or sibling loop does not erase a pending depth"),
+    ("loop_never_returns_signal", "loop_never_returns_signal", "FULL STATEMENT: whatever its body contains, at any fuel, a loop statement never returns break / lazybreak / continue to the rules around it"),
     ("signals_do_not_escape_loops", "loop_result_is_ctx_err", "a loop statement returns ctx.Err, never its body's signal"),
     ("failing_rule_is_not_a_signal", "body_fail_not_signal", "and ctx.Err never carries a signal out of a body"),
     ("signals_unwind_blocks", "follow_block", "blocks (branches, cases) hand their rules' result to the enclosing loop"),
@@ -106,6 +107,11 @@ prop("C14", "A reset or pooled context behaves like a new one", [
 ])
 
 prop("C15", "A failing rule stops the decode and the failure is reported", [
+    ("user_error_is_last_call", "user_error_is_last_call", "FULL STATEMENT (calls): for every program and fuel, with user functions that report their own call number, a decode that returns a user function's error made no call after the failing one -- no callback, getter, modifier or helper of any later rule, iteration or case"),
+    ("every_rule_keeps_error_channel_sound", "follow_sound", "the induction behind it: from a context whose ctx.Err is nil or internal, every rule leaves ctx.Err free of signals and holding a user error only if that call was the last; nil / signal results leave it calm"),
+    ("harness_functions_are_honest", "testU_honest", "the hypothesis holds of the user functions the correspondence runs"),
+    ("injected_failure_is_last_call", "injected_failure_is_last_call", "hence for every job of the harness"),
+    ("success_leaves_no_user_error", "success_leaves_no_user_error", "a successful decode leaves no error behind"),
     ("sequence_stops_at_failure", "rules_cons_err", "a failing rule ends the rule sequence with its error; nothing after it runs"),
     ("error_is_first_failure", "rules_err_prefix", "the error of a sequence is that of its first failing rule, whatever follows"),
     ("body_reports_failure", "body_cons_fail", "inside a loop body the failure is kept as such"),
